@@ -10,5 +10,9 @@ CLAIMS["C18"] = {
     "text": "Proof (all states, all keys, unbounded) that every LRUCache method (__init__/get/has/set/clear/_remove/_add_to_front) preserves the list+dict representation invariant (doubly linked list with sentinels = ghost order, dict <-> interior nodes, size bound) and implements the abstract LRU semantics: hit moves to front and returns the stored value, miss returns None and changes nothing, set stores in front, evicts exactly the last interior node when full, maxsize<=0 is a no-op, all other entries keep their relative order.",
     "note": "Trusted: pyvc heap encoding (Burstall arrays, allocation freshness), quantifier instantiation. Callers are checked against the method contracts, not their bodies. cached_template's key function is not yet under contract.",
 }
-NOT_APPLICABLE = {p: NOT_BUILT for p in ["C01","C02","C03","C04","C05","C06","C09","C10","C11","C12","C13","C14","C15","C16","C17","C19","C20"]}
+CLAIMS["C15"] = {
+    "text": "Proof (all registry states, names, classes; unbounded) that register / unregister / get / all / clear refine a dictionary (exact AlreadyRegistered / NotRegistered conditions, same-class re-registration is a dictionary no-op, state unchanged on every exceptional exit incl. TagProtectedError / ValueError from the formatter), preserve the representation invariant tying _registry, _tags and Library.tags together, remove the tag from the library exactly when no other registered name uses it, and never assign or delete a protected tag.",
+    "note": "Trusted: django Library.tag stub (stores into Library.tags), tag formatter = deterministic function of (registry, name) that may raise ValueError, A-LIB, private Library precondition, pyvc encoding. Sets/dicts are by-value with exact cardinality.",
+}
+NOT_APPLICABLE = {p: NOT_BUILT for p in ["C01","C02","C03","C04","C05","C06","C09","C10","C11","C12","C13","C14","C16","C17","C19","C20"]}
 NOT_APPLICABLE["C07"] = "contracts over sequential calls cannot quantify over thread interleavings; the library holds no locks, so a rely/guarantee encoding would fail every stability obligation and decide nothing (DESIGN.md section 4); exploring schedules is a different technique and is not substituted"
